@@ -45,11 +45,21 @@ struct World {
     client: Option<KyroDbServiceClient<Channel>>,
     rt: tokio::runtime::Runtime,
     starts: u32,
+    bind_retries: u32,
 }
 
 const PROBE_BASE: u64 = 3_000_000_000;
 
-fn free_port() -> u16 {
+/// ports from a range derived from the process id (concurrent harness processes never ask the kernel
+/// for "any free port" at the same time and get the same answer), checked for bindability
+fn free_port(slot: u32) -> u16 {
+    let mut p = 20000 + ((std::process::id().wrapping_mul(16).wrapping_add(slot)) % 12000) as u16; // below the ephemeral range
+    for _ in 0..2000 {
+        if std::net::TcpListener::bind(("127.0.0.1", p)).is_ok() {
+            return p;
+        }
+        p = if p >= 31990 { 20000 } else { p + 1 };
+    }
     std::net::TcpListener::bind("127.0.0.1:0").unwrap().local_addr().unwrap().port()
 }
 
@@ -109,8 +119,8 @@ impl World {
         if self.child.is_some() {
             return "already-running".into();
         }
-        self.grpc_port = free_port();
-        self.http_port = free_port();
+        self.grpc_port = free_port((self.starts * 2 + self.bind_retries * 6) % 16);
+        self.http_port = free_port((self.starts * 2 + 1 + self.bind_retries * 6) % 16);
         self.write_config();
         let bin = std::env::var("KVH_SERVER_BIN").unwrap_or_else(|_| "/verif/harness/target/server/debug/kyrodb_server".into());
         let errlog = std::fs::File::create(self.root.join(format!("stderr.{}.log", self.starts))).unwrap();
@@ -133,6 +143,12 @@ impl World {
         let addr = format!("http://127.0.0.1:{}", self.grpc_port);
         loop {
             if let Ok(Some(st)) = child.try_wait() {
+                // a bind failure (port taken meanwhile) is not an answer of the server about its data
+                let log = std::fs::read_to_string(self.root.join(format!("stderr.{}.log", self.starts - 1))).unwrap_or_default();
+                if (log.contains("in use") || log.contains("AddrInUse") || log.contains("transport error")) && self.bind_retries < 5 {
+                    self.bind_retries += 1;
+                    return self.start();
+                }
                 return format!("exited:{}", st.code().unwrap_or(-1));
             }
             if t0.elapsed() > Duration::from_secs(60) {
@@ -579,6 +595,7 @@ pub fn run() {
         client: None,
         rt: tokio::runtime::Builder::new_multi_thread().worker_threads(2).enable_all().build().unwrap(),
         starts: 0,
+        bind_retries: 0,
     };
     for line in stdin.lock().lines() {
         let line = line.unwrap();
